@@ -29,6 +29,8 @@ Cells
 from .facts import AnalysisBroken, strip, expr_str, CALL_KINDS, TRANSPARENT
 
 INF = float("inf")
+import re as _re
+_ARR = _re.compile(r"\[(\d+)\]$")
 
 
 def is_int(a):
@@ -193,6 +195,7 @@ class Interp:
         self.hooks_store = []                # f(interp, fn, node, cell, val, state) -> state|None
         self.hooks_assert = []
         self.hooks_cmp = []                  # f(interp, fn, node, op, va, vb, st)
+        self.hooks_cast = []                 # f(interp, fn, node, from_type, to_type, value, st)
         self.site_counter = {}
         self.K = sorted(K) if K is not None else self._default_K()
         self.Kset = set(self.K)
@@ -206,6 +209,9 @@ class Interp:
         self._elem_cache = {}
         self._arm_cache = {}
         self._root_cache = {}
+        self._pos_lo = None
+        self._neg_hi = None
+        self._klen = -1
 
     # ------------------------------------------------------------- values
     def _default_K(self):
@@ -279,10 +285,29 @@ class Interp:
                 t = f = True
         return t, f
 
+    def ival(self, a):
+        """interval of an atom; the residual classes start beyond the run of tracked constants around zero"""
+        if a == "POS":
+            if self._pos_lo is None or self._klen != len(self.K):
+                self._klen = len(self.K)
+                p = 1
+                while p in self.Kset:
+                    p += 1
+                self._pos_lo = p
+                q = -1
+                while q in self.Kset:
+                    q -= 1
+                self._neg_hi = q
+            return (self._pos_lo, INF)
+        if a == "NEG":
+            self.ival("POS")
+            return (-INF, self._neg_hi)
+        return atom_interval(a)
+
     def cmp_atoms(self, op, a, b):
         """(may hold, may fail) for `a op b`"""
-        la, ha = atom_interval(a)
-        lb, hb = atom_interval(b)
+        la, ha = self.ival(a)
+        lb, hb = self.ival(b)
         single = la == ha and lb == hb
         if op == "==":
             may = not (ha < lb or hb < la)
@@ -558,6 +583,16 @@ class Interp:
             iv = self.rval(idx, st, fn)
             ik = next(iter(iv)) if len(iv) == 1 and is_int(next(iter(iv))) else "*"
             bv = self.rval(base, st, fn)
+            # bounds of a declared array: `T x[N]` indexed with a value that may be < 0 or >= N
+            b0 = strip_lv(base)
+            if b0["k"] == "ImplicitCastExpr" and b0.get("ck") == "ArrayToPointerDecay":
+                at = b0["c"][0].get("ct") or b0["c"][0].get("t") or ""
+                m = _ARR.search(at)
+                if m:
+                    N = int(m.group(1))
+                    bad = [a for a in iv if self.ival(a)[0] < 0 or (self.ival(a)[1] >= N and not (a == "POS" and False))]
+                    if bad and len(iv) <= 12 and self.stack:
+                        self.events.append(("oob", fn, n, (iv, N), st, tuple(f.name for f in self.stack), tuple(self.callsites)))
             out = []
             for t in self.ptr_targets(bv, base):
                 # pointer to element 0 of an array / to a pointee treated as array
@@ -654,7 +689,16 @@ class Interp:
             if ck == "IntegralToPointer":
                 v = self.rval(sub, st, fn)
                 return frozenset("NULL" if a == 0 else a for a in v)
-            return self.rval(sub, st, fn)
+            v = self.rval(sub, st, fn)
+            if ck == "IntegralCast":
+                dt = n.get("ct") or n.get("t") or ""
+                stt = sub.get("ct") or sub.get("t") or ""
+                for h in self.hooks_cast:
+                    h(self, fn, n, stt, dt, v, st)
+                if dt.startswith("unsigned") and not stt.startswith("unsigned"):
+                    # a negative value converted to an unsigned type becomes a large positive one
+                    v = frozenset("POS" if (a == "NEG" or (is_int(a) and a < 0)) else a for a in v)
+            return v
         if k in ("ParenExpr", "ConstantExpr"):
             return self.rval(n["c"][0], st, fn)
         if k == "DeclRefExpr":
